@@ -45,6 +45,13 @@ pub fn run_c14(out: &mut Out, _rng: &mut Rng, tier: Tier) -> String {
     pairs::<()>(out, 2);
     pairs::<u32>(out, 2);
     pairs::<Cm>(out, 2);
+    out.led_mode = true;
+    pairs::<Zd>(out, 2);
+    out.led_mode = false;
+    let z = snapshot();
+    if z.zst_live != 0 || z.zst_overdrops != 0 {
+        out.oracle_fail(&format!("zero-sized elements with drop glue: created - dropped = {} after all matrices were dropped, drops beyond creations = {}", z.zst_live, z.zst_overdrops));
+    }
     let s = snapshot();
     if s.double_drops > 0 || s.live != 0 {
         out.oracle_fail(&format!("ledger at the end of the run: {} tokens still live, {} double drops", s.live, s.double_drops));
